@@ -21,23 +21,26 @@ META = {
                "thorough": {"seconds": 900, "runs": 10**9}},
     "rule": ("one evaluation = one history of 2..12 (thorough 30) operations {enter with-cb / "
              "add_callbacks(subset), exit innermost, register, unregister, get, get with failing task, "
-             "get with raising pretask/posttask callback, get interrupted} over 2 Callback objects, a raw "
+             "get with a raising start/start_state/pretask/posttask hook, get interrupted} over 2 Callback objects, a raw "
              "5-tuple and a raising Callback; distinct = distinct (history digest, event digest of the gets); "
              "non-trivial = >=3 operations including >=1 get and >=1 nested or repeated callback"),
     "abstract_measure": "distinct (registered set, open-context stack) model states",
     "gates": {"quick": {"same_cb_nested": 300, "registered_then_entered": 300, "get_failed": 300,
-                        "cb_raised": 100, "interrupt": 50},
+                        "cb_raised": 100, "interrupt": 50, "finished_after_start_raise": 30},
               "thorough": {"same_cb_nested": 300}},
     "anchors": ["dask/callbacks.py", "dask/local.py"],
     "real": ["dask.callbacks (Callback, add_callbacks, local_callbacks, unpack_callbacks)",
              "dask.local.get_async callback protocol", "dask.threaded.get", "dask.multiprocessing.get"],
     "stubbed": c01.META["stubbed"],
-    "assumptions": ["no exceptions are injected into start/finish callbacks (the statement is silent on them)",
+    "assumptions": ["no exceptions are injected into finish hooks (the statement is silent on them); when a start "
+                    "hook raises, only the callbacks whose own start hook had already returned are required to be "
+                    "finished (what get_async's started_cbs list promises)",
                     "register/unregister are only generated while the callback is not held by an open context "
                     "(the statement speaks of an *earlier* register())"],
 }
 
 NAMES = ("A", "B", "T", "X")
+HOOKS = ("start", "start_state", "pretask", "posttask")
 
 
 def tier_cfg(tier):
@@ -50,14 +53,16 @@ class LogCb:
     def __init__(self, name, log):
         self.name = name
         self.log = log
-        self.raise_at = None  # ("pretask"|"posttask", n)
-        self.count = {"pretask": 0, "posttask": 0}
+        self.raise_at = None  # ("start"|"start_state"|"pretask"|"posttask", n)
+        self.count = dict.fromkeys(HOOKS, 0)
 
     def start(self, dsk):
         self.log.append(("cb", self.name, "start"))
+        self._maybe_raise("start")
 
     def start_state(self, dsk, state):
         self.log.append(("cb", self.name, "start_state"))
+        self._maybe_raise("start_state")
 
     def pretask(self, key, dsk, state):
         self.log.append(("cb", self.name, "pretask", key))
@@ -80,7 +85,7 @@ class LogCb:
         return (self.start, self.start_state, self.pretask, self.posttask, self.finish)
 
 
-def check_protocol(out, events, name, active, failed, soft):
+def check_protocol(out, events, name, active, failed, soft, start_raiser=None):
     """events: this callback's entries during one get."""
     evs = [e for e in events if e[0] == "cb" and e[1] == name]
     if not active:
@@ -88,6 +93,22 @@ def check_protocol(out, events, name, active, failed, soft):
             return out.violate("inactive_callback_fired", f"callback {name} not active but got {evs[:3]!r}")
         return None
     kinds = [e[2] for e in evs]
+    if start_raiser is not None:
+        # A start hook raised.  Active callbacks are started in set order, so which ones ran before
+        # the raiser is read off the log: each of those must still get its one finish(failed=True);
+        # the raiser itself and the callbacks never started are not constrained.
+        if name == start_raiser or not evs:
+            return None
+        if kinds.count("start") != 1 or kinds[0] != "start":
+            return out.violate("start_protocol", f"callback {name}: events {kinds!r}")
+        if kinds.count("finish") != 1 or kinds[-1] != "finish":
+            return out.violate("finish_protocol",
+                               f"callback {name} was started before {start_raiser}'s start hook raised "
+                               f"but got {kinds.count('finish')} finish calls (events {kinds!r})")
+        if evs[-1][3] is not True:
+            return out.violate("finish_flag", f"callback {name}: finish(failed={evs[-1][3]}), expected True")
+        out.probe("finished_after_start_raise")
+        return None
     if kinds.count("start") != 1 or kinds[0] != "start":
         return out.violate("start_protocol", f"callback {name}: start calls {kinds.count('start')}, "
                                              f"first event {kinds[:1]}")
@@ -237,14 +258,15 @@ def run_one(tape, cfg):
                     fail, faults = None, None
                     for o in objs.values():
                         o.raise_at = None
-                        o.count = {"pretask": 0, "posttask": 0}
+                        o.count = dict.fromkeys(HOOKS, 0)
                     act = model_active()
                     if op == "get_fail" and sites:
                         fail = {sites[tape.draw(len(sites), "site")]: "ValueError"}
                     elif op == "get_cbraise" and act:
                         who = sorted(act)[tape.draw(len(act), "who")]
-                        objs[who].raise_at = (("pretask", "posttask")[tape.draw(2, "which")],
-                                              1 + tape.draw(3, "nth"))
+                        which = HOOKS[tape.draw(4, "which")]
+                        objs[who].raise_at = (which, 1 if which.startswith("start")
+                                              else 1 + tape.draw(3, "nth"))
                     elif op == "get_interrupt":
                         faults = {"interrupt": 1 + tape.draw(3, "nth")}
                     mark = len(log)
@@ -267,9 +289,15 @@ def run_one(tape, cfg):
                         out.violate("get_raised", f"{d['exc_type']} at {d['site']}: {d['msg']}", **d)
                         break
                     soft = op == "get_cbraise" and failed
+                    start_raiser = next((e[1] for e in events if e[0] == "cbraise" and e[2] == "start"),
+                                        None)
+                    if start_raiser is not None and not failed:
+                        out.violate("start_raise_swallowed",
+                                    f"callback {start_raiser}'s start hook raised but the call returned")
+                        break
                     sets = {}
                     for n in NAMES:
-                        r = check_protocol(out, events, n, n in act, failed, soft)
+                        r = check_protocol(out, events, n, n in act, failed, soft, start_raiser)
                         if out.status == "violation":
                             break
                         if r is not None:
